@@ -367,7 +367,7 @@ def run(ctx):
     ctx.note('TLC Repl: %d distinct states; OwnOutput / Usable / Conservation / NoMissed hold for every chunking' % mc['distinct'])
     rng = random.Random(ctx.seed * 613 + 29)
     traces = []
-    nseq = 250 if ctx.quick() else 4000
+    nseq = 600 if ctx.quick() else 5000
     for i in range(nseq):
         traces.append(run_scripted(rng, i, rng.randint(1, 5), big=(i % 10 == 0), use_async=(i % 3 == 2)))
     nontrivial = sum(1 for t in traces if sum(1 for e in t['ev'] if e['e'] == 'cmdret') >= 2)
